@@ -109,6 +109,18 @@ fn main() {
     sink.print();
     if run.is_err() {
         let msg = LAST_PANIC.with(|p| p.borrow().clone());
+        // a panic raised inside the crate under test (or a crate it calls), on an input this
+        // deterministic run generated, reached through a call the suite makes without catch_unwind
+        // because the unchanged crate never panics there: a failing input for the property being
+        // checked (`*`), replayed by running the same suite with the same arguments
+        if !msg.starts_with("src/") {
+            let loc = msg.split(' ').next().unwrap_or("").rsplit("/src/").next().unwrap_or("").to_string();
+            let esc = |x: &str| x.replace('\\', "\\\\").replace('"', "\\\"").replace('\t', " ").replace('\n', " ");
+            println!(
+                "F\t*\t{{\"signature\": \"crate-panics:{}\", \"what\": \"the crate panicked where the unchanged crate does not: {}\", \"replay\": {{\"rerun\": \"xotharness {} {} {} {}\", \"after_transcript_lines\": {}}}}}",
+                esc(&loc), esc(&msg), suite, seed, count, tier, sink.lines.len()
+            );
+        }
         println!("X\tharness-panic\t{}", msg.replace('\t', " ").replace('\n', " "));
         std::process::exit(3);
     }
